@@ -98,6 +98,9 @@ pub const CATALOGUE: &[Operand] = &[
     Operand { ty: "(int, any)->int|(any, string)->int", values: &["(n: int, s: any) -> int { return n + 1; }", "(n: any, s: string) -> int { return std.len(s); }"] },
     Operand { ty: "(any)->any|(string)->string", values: &["(n: any) -> any { return n; }", "(s: string) -> string { return s + \"!\"; }"] },
     Operand { ty: "(int, string)|(int, string, float)", values: &["(1, \"a\")", "(1, \"a\", 2.5)"] },
+    // arrays of cells of other and of several cell types (concatenation joins the element types)
+    Operand { ty: "[mut float]", values: &["[mut 1.5]", "[]"] },
+    Operand { ty: "[mut int|mut float]", values: &["[mut 1, mut 2.5]", "[mut 2.5, mut 1]", "[mut 1]", "[mut 2.5]"] },
 ];
 
 /// templates over one operand `X`
